@@ -65,6 +65,19 @@ def adaptive (nT a : Nat) (sn : IMat) (order : List Int) (recur : IMat) : Option
   (List.range a).foldl (fun acc i =>
     (List.range nT).foldl (fun acc j => acc.bind (body sn order nT i j)) acc) (some recur)
 
+/-- well-formed arguments, as `RecurrencePlot.set_adaptive_neighborhood_size`
+builds them: `recurrence` is `n × n`; the first `n` rows of `sorted_neighbors`
+have at least `n_time` columns holding state numbers `< n`
+(`distance.argsort(axis=1)`); the first `n_time` entries of `order` are state
+numbers `< n`. -/
+def tablesOK (n nT : Nat) (sn : IMat) (order : List Int) (recur : IMat) : Bool :=
+  recur.length == n && recur.all (fun row => row.length == n)
+  && decide (n ≤ sn.length)
+  && (sn.take n).all (fun row => decide (nT ≤ row.length)
+        && (row.take nT).all (fun c => decide (0 ≤ c) && decide (c < (n : Int))))
+  && decide (nT ≤ order.length)
+  && (order.take nT).all (fun l => decide (0 ≤ l) && decide (l < (n : Int)))
+
 def showOutcome : Option IMat → String
   | none => "raise:IndexError"
   | some m =>
